@@ -11,10 +11,12 @@ import (
 	"os"
 	"sort"
 	"strings"
+	"time"
 
 	"verif/harness/hx"
 
 	distrtypes "github.com/KiraCore/sekai/x/distributor/types"
+	"github.com/KiraCore/sekai/x/gov"
 	govtypes "github.com/KiraCore/sekai/x/gov/types"
 	layer2keeper "github.com/KiraCore/sekai/x/layer2/keeper"
 	layer2types "github.com/KiraCore/sekai/x/layer2/types"
@@ -181,8 +183,11 @@ func main() {
 		height := int64(1)
 		now := T0
 		// history flavour: 0 inflation-centred, 1 token-registry-centred, 2 ubi-centred, 3 mixed
-		flavour := hr.Intn(4)
-		kind := []string{"inflation", "tokens", "ubi", "mixed"}[flavour]
+		flavour := hr.Intn(5)
+		if hi == 4 {
+			flavour = 4
+		}
+		kind := []string{"inflation", "tokens", "ubi", "mixed", "ubi_gate"}[flavour]
 
 		// ---- initial state
 		// native balances of the actors (minted through the bank like the genesis accounts)
@@ -248,7 +253,15 @@ func main() {
 			}
 			app.DistrKeeper.SetPeriodicSnapshot(ctx, distrtypes.SupplySnapshot{SnapshotTime: T0 - hr.Range(0, 3000000), SnapshotAmount: amt})
 		}
-		if hr.Chance(50) {
+		if flavour == 4 { // a year-start snapshot at (or just below) the current supply, some months old
+			amt := s0
+			if hr.Chance(40) {
+				amt = s0.SubRaw(hr.Range(0, 1000000))
+			}
+			if s0.IsPositive() && amt.IsPositive() {
+				app.DistrKeeper.SetYearStartSnapshot(ctx, distrtypes.SupplySnapshot{SnapshotTime: T0 - hr.Range(0, 28000000), SnapshotAmount: amt})
+			}
+		} else if hr.Chance(50) {
 			amt := s0
 			switch hr.Intn(4) {
 			case 0:
@@ -303,12 +316,15 @@ func main() {
 			now += dt
 			height++
 			hdr := ctx.BlockHeader()
-			hdr.Time = hx.Ctx(app, height, now).BlockHeader().Time
+			// block times carry a nanosecond part (the code under test works on whole seconds: Unix())
+			nanos := []int64{0, 1, 999999999, 500000000, hr.Range(0, 999999999)}[hr.Intn(5)]
+			hdr.Time = time.Unix(now, nanos).UTC()
 			hdr.Height = height
 			hdr.ProposerAddress = []byte("c13_proposer________")
 			before := supplyOf(ctx, native)
 			recsBefore := ubiJSON(app.UbiKeeper.GetUBIRecords(ctx))
 			var sBegin, sUbi sdk.Int
+			var mints []sdk.Int
 			prevCtx := ctx
 			code, cls, msg := 0, "", ""
 			func() {
@@ -316,7 +332,25 @@ func main() {
 				pan := hx.Try(func() {
 					app.DistrKeeper.BeginBlocker(c, abci.RequestBeginBlock{Header: hdr})
 					sBegin = supplyOf(c, native)
-					ubi.EndBlocker(c, app.UbiKeeper)
+					// the ubi end blocker on its own event manager: its coinbase events are the per-record mints, in order
+					cu := c.WithEventManager(sdk.NewEventManager())
+					ubi.EndBlocker(cu, app.UbiKeeper)
+					for _, ev := range cu.EventManager().Events() {
+						if ev.Type != "coinbase" {
+							continue
+						}
+						for _, at := range ev.Attributes {
+							if string(at.Key) == "amount" {
+								coins, err := sdk.ParseCoinsNormalized(string(at.Value))
+								if err != nil {
+									panic(err)
+								}
+								if a := coins.AmountOf(native); a.IsPositive() {
+									mints = append(mints, a)
+								}
+							}
+						}
+					}
 					sUbi = supplyOf(c, native)
 					app.DistrKeeper.EndBlocker(c)
 				})
@@ -331,16 +365,22 @@ func main() {
 				height--
 				ctx = prevCtx
 				sBegin, sUbi = before, before
+				mints = nil
+			}
+			var mintsCoq, mintsJ []string
+			for _, m := range mints {
+				mintsCoq = append(mintsCoq, hx.ZInt(m))
+				mintsJ = append(mintsJ, m.String())
 			}
 			ps, ys := app.DistrKeeper.GetPeriodicSnapshot(ctx), app.DistrKeeper.GetYearStartSnapshot(ctx)
 			regn := sdk.ZeroInt()
 			if ti := app.TokensKeeper.GetTokenInfo(ctx, native); ti != nil {
 				regn = ti.Supply
 			}
-			obs := fmt.Sprintf("(BObs %d %s %s (mkSnap %s %s) (mkSnap %s %s) %s %s %s)", code, hx.ZInt(sBegin), hx.ZInt(sUbi), hx.Z(ps.SnapshotTime), oint(ps.SnapshotAmount),
-				hx.Z(ys.SnapshotTime), oint(ys.SnapshotAmount), ubisCoq(ctx), hx.ZInt(poolBal(ctx)), hx.ZInt(regn))
-			add(fmt.Sprintf("OBlock %d", dt), obs, jop{Kind: "block", Args: map[string]interface{}{"dt": dt, "time": now, "height": height}, Res: cls, Err: msg,
-				Obs: map[string]interface{}{"supply_before": before.String(), "supply_after_inflation": sBegin.String(), "supply_after_ubi": sUbi.String(),
+			obs := fmt.Sprintf("(BObs %d %s %s (mkSnap %s %s) (mkSnap %s %s) %s %s %s %s)", code, hx.ZInt(sBegin), hx.ZInt(sUbi), hx.Z(ps.SnapshotTime), oint(ps.SnapshotAmount),
+				hx.Z(ys.SnapshotTime), oint(ys.SnapshotAmount), ubisCoq(ctx), hx.ZInt(poolBal(ctx)), hx.ZInt(regn), hx.List(mintsCoq))
+			add(fmt.Sprintf("OBlock %d", dt), obs, jop{Kind: "block", Args: map[string]interface{}{"dt": dt, "time": now, "time_nanos": nanos, "height": height}, Res: cls, Err: msg,
+				Obs: map[string]interface{}{"ubi_mints_in_order": mintsJ, "supply_before": before.String(), "supply_after_inflation": sBegin.String(), "supply_after_ubi": sUbi.String(),
 					"ubi_records_before": recsBefore, "ubi_records": ubiJSON(app.UbiKeeper.GetUBIRecords(ctx)), "native_registry_supply": regn.String(),
 					"periodic_snapshot": fmt.Sprintf("%d/%s", ps.SnapshotTime, ps.SnapshotAmount), "year_snapshot": fmt.Sprintf("%d/%s", ys.SnapshotTime, ys.SnapshotAmount)}})
 		}
@@ -352,12 +392,25 @@ func main() {
 			if hr.Chance(30) {
 				rate = sdk.NewDecWithPrec(hr.Range(0, 500000000000000000), 18).String()
 			}
-			if !setParams(rate, maxann, period) {
+			how := "keeper"
+			if hr.Chance(50) { // one passed SetNetworkProperty proposal per property, through the real handler (an unchanged value is rejected by it)
+				how = "proposals"
+				h := gov.NewApplySetNetworkPropertyProposalHandler(app.CustomGovKeeper)
+				for _, pr := range []govtypes.SetNetworkPropertyProposal{
+					{NetworkProperty: govtypes.InflationRate, Value: govtypes.NetworkPropertyValue{StrValue: rate}},
+					{NetworkProperty: govtypes.InflationPeriod, Value: govtypes.NetworkPropertyValue{Value: period}},
+					{NetworkProperty: govtypes.MaxAnnualInflation, Value: govtypes.NetworkPropertyValue{StrValue: maxann}},
+				} {
+					prop := pr
+					atomic(func(c sdk.Context) error { return h.Apply(c, 1, &prop, sdk.ZeroDec()) })
+				}
+			} else if !setParams(rate, maxann, period) {
 				return
 			}
 			p := app.CustomGovKeeper.GetNetworkProperties(ctx)
+			rate, period, maxann = p.InflationRate.String(), p.InflationPeriod, p.MaxAnnualInflation.String()
 			add(fmt.Sprintf("OParams %s %s %s", decRaw(p.InflationRate), hx.ZU(p.InflationPeriod), decRaw(p.MaxAnnualInflation)), fmt.Sprintf("(PObs 0 %s)", hx.ZInt(supplyOf(ctx, native))),
-				jop{Kind: "params", Args: map[string]interface{}{"inflation_rate": rate, "inflation_period": period, "max_annual_inflation": maxann}, Res: "ok"})
+				jop{Kind: "params", Args: map[string]interface{}{"inflation_rate": rate, "inflation_period": period, "max_annual_inflation": maxann, "set_by": how}, Res: "ok"})
 		}
 		doHardcapV := func(v uint64) {
 			p := *app.CustomGovKeeper.GetNetworkProperties(ctx)
@@ -535,6 +588,42 @@ func main() {
 			ja := map[string]interface{}{"actor": actor, "denom": denoms[d], "amount": amt.String(), "is_owner": cur != nil && cur.Owner == actors[actor].String()}
 			add(fmt.Sprintf("OMintIssue %d %d %s", actor, d, hx.ZInt(amt)), obs, jop{Kind: "mint_issue", Args: ja, Res: cls, Err: msg, Obs: jo})
 		}
+		// two MsgMintIssueTx in ONE transaction (one cache context, committed only if both succeed); near a cap each
+		// amount fits alone and only the SUM exceeds it
+		doMintIssue2 := func(d int) {
+			actor := 1 + hr.Intn(4)
+			cur := app.TokensKeeper.GetTokenInfo(ctx, denoms[d])
+			if cur != nil && hr.Chance(60) {
+				if id := actorID(cur.Owner); id >= 1 && id <= 4 {
+					actor = int(id)
+				}
+			}
+			a1, a2 := pickAmt(d), pickAmt(d)
+			if cur != nil && cur.SupplyCap.IsPositive() && hr.Chance(70) {
+				room := cur.SupplyCap.Sub(cur.Supply)
+				if room.GT(sdk.NewInt(3)) {
+					a1 = room.MulRaw(hr.Range(35, 95)).QuoRaw(100)
+					a2 = room.Sub(a1).AddRaw(hr.Range(-1, 1))
+					if hr.Chance(25) {
+						a2 = room.MulRaw(hr.Range(35, 95)).QuoRaw(100)
+					}
+				}
+			}
+			code, cls, msg := atomic(func(c sdk.Context) error {
+				for _, a := range []sdk.Int{a1, a2} {
+					if _, err := lms.MintIssueTx(sdk.WrapSDKContext(c), &layer2types.MsgMintIssueTx{Sender: actors[actor].String(), Denom: denoms[d], Amount: a, Receiver: actors[actor].String()}); err != nil {
+						return err
+					}
+				}
+				return nil
+			})
+			obs, jo := tokObs(code, d)
+			ja := map[string]interface{}{"actor": actor, "denom": denoms[d], "amount1": a1.String(), "amount2": a2.String(), "is_owner": cur != nil && cur.Owner == actors[actor].String()}
+			if cur != nil {
+				ja["cap_before"], ja["reg_supply_before"] = cur.SupplyCap.String(), cur.Supply.String()
+			}
+			add(fmt.Sprintf("OMintIssue2 %d %d %s %s", actor, d, hx.ZInt(a1), hx.ZInt(a2)), obs, jop{Kind: "mint_issue_x2_one_tx", Args: ja, Res: cls, Err: msg, Obs: jo})
+		}
 		doBurn := func(d int) {
 			actor := 1 + hr.Intn(4)
 			amt := sdk.NewInt(amtChoices[hr.Intn(len(amtChoices))])
@@ -604,6 +693,59 @@ func main() {
 			doBlock(5)
 			doBlock(5)
 		}
+		if flavour == 4 && hi >= 4 {
+			// Several UBI records falling due in ONE block while the pro-rated annual allowance is almost used up:
+			// every record fits the remaining allowance alone, together they do not.  The gate must be re-read
+			// after each payout (and after the inflation of the same block).
+			doUbiRemove0 := func() {
+				code, cls, msg := atomic(func(c sdk.Context) error { return ubiR.Apply(c, 1, &ubitypes.RemoveUBIProposal{UbiName: ubiNames[0]}, sdk.ZeroDec()) })
+				add("OUbiRemove 0", fmt.Sprintf("(UObs %d %s %s)", code, hx.ZInt(supplyOf(ctx, native)), ubisCoq(ctx)), jop{Kind: "ubi_remove", Args: map[string]interface{}{"name": ubiNames[0]}, Res: cls, Err: msg})
+			}
+			if hr.Chance(80) {
+				doUbiRemove0()
+			}
+			doHardcapV(1 << 40)
+			if hr.Chance(40) {
+				doBlock(pickDt()) // snapshots of a running chain
+			}
+			nrec := 2 + hr.Intn(3)
+			period := []uint64{3600, 86400, 60, 604800}[hr.Intn(4)]
+			var amounts []int64
+			for j := 0; j < nrec; j++ {
+				amounts = append(amounts, hr.Range(1, 3000))
+			}
+			for j := 0; j < nrec; j++ {
+				doUbiUpsertArgs(1+j, uint64(amounts[j]), period, uint64(now), 0, 0)
+			}
+			// allowance: somewhere inside the sum of the payouts, so that an earlier record closes the gate for a later one
+			ys := app.DistrKeeper.GetYearStartSnapshot(ctx)
+			sup := supplyOf(ctx, native)
+			target := now + int64(period) + 1 + hr.Range(0, 3)
+			if !ys.SnapshotAmount.IsNil() && ys.SnapshotAmount.IsPositive() && target > ys.SnapshotTime {
+				mi := (target - ys.SnapshotTime + 2592000 - 1) / 2592000
+				upto := 1 + hr.Intn(nrec)
+				part := int64(0)
+				for j := 0; j < upto; j++ {
+					part += amounts[j]
+				}
+				allow := sup.Sub(ys.SnapshotAmount).Add(sdk.NewInt(part * 1000000).MulRaw(hr.Range(30, 110)).QuoRaw(100))
+				if allow.IsPositive() {
+					maxann := sdk.NewDecFromInt(allow).MulInt64(12).QuoInt(ys.SnapshotAmount).QuoInt64(mi)
+					rate := "0"
+					if hr.Chance(30) { // inflation of the same block competes for the same allowance
+						rate = rateChoices[hr.Intn(len(rateChoices))]
+					}
+					if setParams(rate, maxann.String(), app.CustomGovKeeper.GetNetworkProperties(ctx).InflationPeriod) {
+						p := app.CustomGovKeeper.GetNetworkProperties(ctx)
+						add(fmt.Sprintf("OParams %s %s %s", decRaw(p.InflationRate), hx.ZU(p.InflationPeriod), decRaw(p.MaxAnnualInflation)), fmt.Sprintf("(PObs 0 %s)", hx.ZInt(supplyOf(ctx, native))),
+							jop{Kind: "params", Args: map[string]interface{}{"inflation_rate": rate, "inflation_period": p.InflationPeriod, "max_annual_inflation": maxann.String(), "set_by": "keeper"}, Res: "ok"})
+					}
+				}
+			}
+			doBlock(target - now)
+			doBlock(int64(period) + 1)
+			nops = hr.Intn(6)
+		}
 		for i := 0; i < nops; i++ {
 			x := hr.Intn(100)
 			switch flavour {
@@ -628,8 +770,10 @@ func main() {
 				switch {
 				case x < 30:
 					doUpsertMsg()
-				case x < 65:
+				case x < 52:
 					doMintIssue(pickRegistered())
+				case x < 65:
+					doMintIssue2(pickRegistered())
 				case x < 82:
 					doBurn(pickRegistered())
 				case x < 92:
@@ -637,7 +781,7 @@ func main() {
 				default:
 					doBlock(pickDt())
 				}
-			case 2: // ubi
+			case 2, 4: // ubi
 				switch {
 				case x < 45:
 					doUbiUpsert()
@@ -664,8 +808,10 @@ func main() {
 					doHardcap()
 				case x < 72:
 					doUpsertMsg()
-				case x < 85:
+				case x < 80:
 					doMintIssue(pickRegistered())
+				case x < 85:
+					doMintIssue2(pickRegistered())
 				case x < 93:
 					doBurn(pickRegistered())
 				case x < 97:
